@@ -7,7 +7,7 @@
    Definitions + proofs (glue file; nothing here changes a model). *)
 From Coq Require Import NArith ZArith List Bool Lia Arith.
 From Coq Require Import ZifyBool ZifyN ZifyNat.
-From JLS Require Import Generated CrcDefs Spec Format FormatProofs WmRaw WmCore WmTs WmProofs TsModel RefineLog.
+From JLS Require Import Generated CrcDefs Spec Format FormatProofs WmRaw WmCore WmTs WmFsr WriterModel WmProofs TsModel RefineLog.
 Import ListNotations.
 Local Open Scope N_scope.
 
@@ -25,3 +25,857 @@ Definition rt_write (sid tag : N) (x : wm_tx) (payload : list N) (plen : N) (key
   let '(r2, dh) := wm_update_item_head r1 (wm_tk_data_head t) {| wm_ck_offset := offset; wm_ck_hdr := h1 |} in
   let '(b1, t1) := wm_track_update (wm_b_set_raw b r2) sid (wm_tk_set_data_head t dh) 0 offset in
   wm_ts_add sid {| wm_tx_base := b1; wm_tx_tk := t1; wm_tx_ts := wm_tx_ts x |} key offset sentry.
+
+(* ------------------------------------------------------------------ small facts *)
+Lemma rt_psi_app : forall offs more k, (k <= length offs)%nat -> rt_psi (offs ++ more) k = rt_psi offs k.
+Proof. intros offs more [|j] H; [reflexivity|]. cbn [rt_psi]. apply app_nth1. lia. Qed.
+Lemma rt_psi_new : forall offs more j, (j < length more)%nat -> rt_psi (offs ++ more) (S (length offs + j)) = nth j more 0.
+Proof. intros offs more j H. cbn [rt_psi]. rewrite app_nth2 by lia. f_equal. lia. Qed.
+Lemma rt_psi_zero : forall offs k, Forall (fun o => o <> 0) offs -> (k <= length offs)%nat -> (rt_psi offs k = 0 <-> k = 0%nat).
+Proof.
+  intros offs [|j] Hnz Hk; [tauto|]. cbn [rt_psi]. split; [|discriminate]. intro E. exfalso.
+  rewrite Forall_forall in Hnz. apply (Hnz 0); [|reflexivity]. rewrite <- E. apply nth_In. lia.
+Qed.
+
+Lemma rt_ts_get_set_eq : forall s l v, (N.to_nat l < length (wm_ts_levels s))%nat -> wm_ts_get (wm_ts_set s l v) l = v.
+Proof. intros. unfold wm_ts_get, wm_ts_set. cbn [wm_ts_levels]. apply rf_nth_upd_eq. assumption. Qed.
+Lemma rt_ts_get_set_neq : forall s l l' v, l <> l' -> wm_ts_get (wm_ts_set s l v) l' = wm_ts_get s l'.
+Proof. intros. unfold wm_ts_get, wm_ts_set. cbn [wm_ts_levels]. apply rf_nth_upd_neq. lia. Qed.
+Lemma rt_ts_set_len : forall s l v, length (wm_ts_levels (wm_ts_set s l v)) = length (wm_ts_levels s).
+Proof. intros. unfold wm_ts_set. cbn [wm_ts_levels]. apply rf_upd_length. Qed.
+Lemma rt_ts_set_dec : forall s l v, wm_ts_dec (wm_ts_set s l v) = wm_ts_dec s.
+Proof. reflexivity. Qed.
+
+Lemma rf_ofnat_succ_t : forall L, N.of_nat L + 1 = N.of_nat (S L).
+Proof. intros. lia. Qed.
+
+Lemma rt_payload_header_len : forall ts n b, length (wm_payload_header ts n b) = 16%nat.
+Proof.
+  intros. unfold wm_payload_header, fm_encode_payload_header. cbn [fm_ph_timestamp fm_ph_entry_count fm_ph_entry_size_bits fm_ph_rsv16].
+  rewrite !app_length, fm_enc_i64_length. unfold fm_enc_u32, fm_enc_u16. rewrite !fm_enc_length. reflexivity.
+Qed.
+Lemma rt_flat_map_len : forall (A : Type) (f : A -> list N) k l, (forall a, length (f a) = k) -> length (flat_map f l) = (k * length l)%nat.
+Proof. intros A f k l H. induction l as [|a l IH]; cbn [flat_map length]; [lia|]. rewrite app_length, IH, H. lia. Qed.
+Lemma rt_index_payload_len : forall ts n es, rf_len (wm_ts_index_payload ts n es) = 16 + 16 * N.of_nat (length es).
+Proof.
+  intros. unfold rf_len, wm_ts_index_payload. rewrite app_length, rt_payload_header_len.
+  rewrite (rt_flat_map_len _ wm_index_entry_bytes 16).
+  - lia.
+  - intros [t o]. unfold wm_index_entry_bytes. rewrite app_length, fm_enc_i64_length. unfold fm_enc_u64. rewrite fm_enc_length. reflexivity.
+Qed.
+Lemma rt_summary_payload_len : forall ts n (ss : list (list N)), Forall (fun e => length e = 16%nat) ss ->
+  rf_len (wm_ts_summary_payload ts n ss) = 16 + 16 * N.of_nat (length ss).
+Proof.
+  intros ts n ss H. unfold rf_len, wm_ts_summary_payload. rewrite app_length, rt_payload_header_len.
+  assert (E : length (concat ss) = (16 * length ss)%nat).
+  { induction H as [|e l He Hl IH]; [reflexivity|]. cbn [concat length]. rewrite app_length, IH, He. lia. }
+  rewrite E. lia.
+Qed.
+
+(* ------------------------------------------------------------------ the simulation *)
+Section RT.
+Variables A SE : Type.
+Variable key : A -> Z.
+Variable summ : A -> SE.
+Variable encA : A -> list N.        (* DATA payload of a record *)
+Variable encS : SE -> list N.       (* the 16 bytes of a summary entry *)
+Variable sid : N.
+Variable ty : N.                    (* JLS_TRACK_TYPE_ANNOTATION or JLS_TRACK_TYPE_UTC *)
+Variable d : nat.                   (* decimate factor *)
+Hypothesis Hsid : sid < 256.
+Hypothesis Hty : ty < 4.
+Hypothesis HencS : forall s, length (encS s) = 16%nat.
+Hypothesis Hd2 : (2 <= d)%nat.
+Hypothesis Hdb : 16 + 16 * N.of_nat d < 4294967296.
+
+Definition rt_ent (offs : list N) (e : Z * nat) : Z * N := (fst e, rt_psi offs (snd e)).
+
+Definition rt_lvl_rel (offs : list N) (lv : wm_ts_level) (l : ts_level SE) : Prop :=
+  wm_tl_nidx lv = N.of_nat (length (wm_tl_idx lv)) /\ wm_tl_nsum lv = N.of_nat (length (wm_tl_sum lv)) /\
+  rev (wm_tl_idx lv) = map (rt_ent offs) (tl_idx l) /\ Forall (fun e => (snd e <= length offs)%nat) (tl_idx l) /\
+  rev (wm_tl_sum lv) = map encS (tl_sum l) /\
+  (length (tl_idx l) <= d)%nat /\ (length (tl_sum l) <= d)%nat.
+
+(* wm levels L, L+1, ... against TsModel's list of levels *)
+Fixpoint rt_lvls (offs : list N) (s : wm_ts) (L : nat) (lvs : list (ts_level SE)) : Prop :=
+  match lvs with
+  | [] => forall M, (L <= M < 16)%nat -> wm_ts_get s (N.of_nat M) = None
+  | l :: r => (exists lv, wm_ts_get s (N.of_nat L) = Some lv /\ rt_lvl_rel offs lv l) /\ rt_lvls offs s (S L) r
+  end.
+
+Lemma rt_lvl_rel_app : forall offs more lv l, rt_lvl_rel offs lv l -> rt_lvl_rel (offs ++ more) lv l.
+Proof.
+  intros offs more lv l (A1 & A2 & A3 & A4 & A5 & A6 & A7). split; [exact A1|]. split; [exact A2|].
+  split. { rewrite A3. apply map_ext_in. intros e He. rewrite Forall_forall in A4. unfold rt_ent. rewrite rt_psi_app by (apply A4; exact He). reflexivity. }
+  split. { rewrite app_length. eapply Forall_impl; [|exact A4]. cbv beta. intros; lia. }
+  split; [exact A5|]. split; assumption.
+Qed.
+Lemma rt_lvls_app : forall offs more s lvs L, rt_lvls offs s L lvs -> rt_lvls (offs ++ more) s L lvs.
+Proof.
+  intros offs more s lvs. induction lvs as [|l r IH]; intros L H; cbn [rt_lvls] in *; [exact H|].
+  destruct H as ((lv & Hg & Hr) & Hrest). split; [exists lv; split; [exact Hg|apply rt_lvl_rel_app; exact Hr]|apply IH; exact Hrest].
+Qed.
+(* levels depend on the wm_ts only through the levels >= L *)
+Lemma rt_lvls_ext : forall offs s s' lvs L, (forall M, (L <= M)%nat -> wm_ts_get s' (N.of_nat M) = wm_ts_get s (N.of_nat M)) ->
+  rt_lvls offs s L lvs -> rt_lvls offs s' L lvs.
+Proof.
+  intros offs s s' lvs. induction lvs as [|l r IH]; intros L He H; cbn [rt_lvls] in *.
+  - intros M HM. rewrite He by lia. apply H. exact HM.
+  - destruct H as ((lv & Hg & Hr) & Hrest). split; [exists lv; split; [rewrite He by lia; exact Hg|exact Hr]|].
+    apply IH; [intros M HM; apply He; lia|exact Hrest].
+Qed.
+
+Definition rt_tag (kind : N) : N := fm_track_tag ty kind.
+
+Definition rt_chunk_rel (offs : list N) (c : rf_chunk) (tc : ts_chunk A SE) : Prop :=
+  match tc with
+  | TsData r => rc_tag c = rt_tag JLS_TRACK_CHUNK_DATA /\ rc_meta c = sid /\ rc_pay c = encA r
+  | TsIndex L es =>
+    rc_tag c = rt_tag JLS_TRACK_CHUNK_INDEX /\ rc_meta c = wm_meta sid (N.of_nat L) /\
+    rc_pay c = wm_ts_index_payload (fst (hd (0%Z, 0%nat) es)) (N.of_nat (length es)) (map (rt_ent offs) es) /\
+    Forall (fun e => (snd e <= length offs)%nat) es
+  | TsSummary L ss =>
+    rc_tag c = rt_tag JLS_TRACK_CHUNK_SUMMARY /\ rc_meta c = wm_meta sid (N.of_nat L) /\
+    exists ts0, rc_pay c = wm_ts_summary_payload ts0 (N.of_nat (length ss)) (map encS ss)
+  end.
+
+Lemma rt_chunk_rel_app : forall offs more c tc, rt_chunk_rel offs c tc -> rt_chunk_rel (offs ++ more) c tc.
+Proof.
+  intros offs more c [r|L es|L ss] H; cbn [rt_chunk_rel] in *; [exact H| |exact H].
+  destruct H as (A1 & A2 & A3 & A4). split; [exact A1|]. split; [exact A2|]. split.
+  - rewrite A3. f_equal. apply map_ext_in. intros e He. rewrite Forall_forall in A4. unfold rt_ent. rewrite rt_psi_app by (apply A4; exact He). reflexivity.
+  - rewrite app_length. eapply Forall_impl; [|exact A4]. cbv beta. intros; lia.
+Qed.
+
+Definition rt_mine (c : rf_chunk) : bool :=
+  ((rc_tag c =? rt_tag JLS_TRACK_CHUNK_DATA) || (rc_tag c =? rt_tag JLS_TRACK_CHUNK_INDEX) || (rc_tag c =? rt_tag JLS_TRACK_CHUNK_SUMMARY))
+  && (N.land (rc_meta c) 4095 =? sid).
+
+Definition rt_out (x : wm_tx) : list rf_chunk := rp_out (rf_scan (wm_rlog (wm_b_raw (wm_tx_base x)))).
+
+(* state relation: cs = the track's chunks so far; lvs = TsModel's levels from level L on *)
+Record rt_R (cs : list rf_chunk) (x : wm_tx) (disk : list (ts_chunk A SE)) (h : nat -> nat) : Prop := {
+  T_bok : rf_bok (wm_tx_base x);
+  T_tok : rf_tok (wm_b_raw (wm_tx_base x)) (wm_tx_tk x);
+  T_ty : wm_tk_type (wm_tx_tk x) = ty;
+  T_len : length (wm_ts_levels (wm_tx_ts x)) = 16%nat;
+  T_dec : wm_ts_dec (wm_tx_ts x) = N.of_nat d;
+  T_nz : Forall (fun o => o <> 0) (map rc_off cs);
+  T_disk : Forall2 (rt_chunk_rel (map rc_off cs)) cs disk;
+  T_heads : forall L, (L < 16)%nat ->
+      wm_get_off (wm_tk_offsets (wm_tx_tk x)) (N.of_nat L) = rt_psi (map rc_off cs) (h L) /\ (h L <= length cs)%nat
+}.
+
+Definition rt_S (pre cs : list rf_chunk) (x : wm_tx) (disk : list (ts_chunk A SE)) (h : nat -> nat) : Prop :=
+  rt_R cs x disk h /\ filter rt_mine (rt_out x) = rev cs ++ pre.
+
+
+Lemma rt_meta_sid : forall level, level < 16 -> N.land (wm_meta sid level) 4095 = sid.
+Proof.
+  intros level Hl.
+  assert (H : forallb (fun s => forallb (fun l => N.land (wm_meta (N.of_nat s) (N.of_nat l)) 4095 =? N.of_nat s) (seq 0 16)) (seq 0 256) = true)
+    by (vm_compute; reflexivity).
+  rewrite forallb_forall in H. specialize (H (N.to_nat sid) ltac:(apply in_seq; lia)).
+  rewrite forallb_forall in H. specialize (H (N.to_nat level) ltac:(apply in_seq; lia)).
+  rewrite !N2Nat.id in H. apply N.eqb_eq. exact H.
+Qed.
+Lemma rt_sid_land : N.land sid 4095 = sid.
+Proof. change 4095 with (N.ones 12). rewrite N.land_ones. apply N.mod_small. change (2 ^ 12) with 4096. lia. Qed.
+
+Lemma rt_tag_ok : forall k, k <= JLS_TRACK_CHUNK_SUMMARY -> rt_tag k <> JLS_TAG_INVALID /\ rt_tag k < 256.
+Proof. intros k Hk. apply rf_track_tag_ok; assumption. Qed.
+
+Lemma rt_mine_tag : forall c k, (k = JLS_TRACK_CHUNK_DATA \/ k = JLS_TRACK_CHUNK_INDEX \/ k = JLS_TRACK_CHUNK_SUMMARY) ->
+  rc_tag c = rt_tag k -> N.land (rc_meta c) 4095 = sid -> rt_mine c = true.
+Proof.
+  intros c k Hk Ht Hm. unfold rt_mine. rewrite Hm, N.eqb_refl, andb_true_r, Ht.
+  destruct Hk as [-> | [-> | ->]]; rewrite N.eqb_refl; rewrite ?orb_true_r; reflexivity.
+Qed.
+
+Lemma rt_filter_cons_mine : forall c out cs pre, rt_mine c = true -> filter rt_mine out = rev cs ++ pre ->
+  filter rt_mine (c :: out) = rev (cs ++ [c]) ++ pre.
+Proof. intros c out cs pre Hm H. cbn [filter]. rewrite Hm, H, rev_app_distr. reflexivity. Qed.
+
+Lemma rt_Forall2_impl : forall (X Y : Type) (P Q : X -> Y -> Prop) l1 l2, (forall a b, P a b -> Q a b) -> Forall2 P l1 l2 -> Forall2 Q l1 l2.
+Proof. intros X Y P Q l1 l2 H F. induction F; constructor; auto. Qed.
+Lemma rt_Forall2_len : forall (X Y : Type) (P : X -> Y -> Prop) l1 l2, Forall2 P l1 l2 -> length l1 = length l2.
+Proof. intros X Y P l1 l2 F. induction F; cbn [length]; congruence. Qed.
+
+Lemma rt_get_off_upd_eq : forall l L v, (L < length l)%nat -> wm_get_off (wm_upd L v l) (N.of_nat L) = v.
+Proof. intros. unfold wm_get_off. rewrite Nat2N.id. apply rf_nth_upd_eq. assumption. Qed.
+Lemma rt_get_off_upd_neq : forall l L M v, L <> M -> wm_get_off (wm_upd L v l) (N.of_nat M) = wm_get_off l (N.of_nat M).
+Proof. intros. unfold wm_get_off. rewrite Nat2N.id. apply rf_nth_upd_neq. assumption. Qed.
+
+(* head_offsets[] after a chunk of level L was written as chunk number (length offs) *)
+Lemma rt_heads_step : forall offs offsets (h : nat -> nat) L off,
+  Forall (fun o => o <> 0) offs -> length offsets = 16%nat -> (L < 16)%nat -> off <> 0 ->
+  (forall M, (M < 16)%nat -> wm_get_off offsets (N.of_nat M) = rt_psi offs (h M) /\ (h M <= length offs)%nat) ->
+  let offsets' := if wm_get_off offsets (N.of_nat L) =? 0 then wm_upd L off offsets else offsets in
+  forall M, (M < 16)%nat ->
+    wm_get_off offsets' (N.of_nat M) = rt_psi (offs ++ [off]) (ts_head_upd h L (S (length offs)) M) /\
+    (ts_head_upd h L (S (length offs)) M <= length (offs ++ [off]))%nat.
+Proof.
+  intros offs offsets h L off Hnz Hlen HL Hoff Hh offsets' M HM.
+  destruct (Hh L HL) as (EL & VL). destruct (Hh M HM) as (EM & VM).
+  assert (Hz : (wm_get_off offsets (N.of_nat L) =? 0) = Nat.eqb (h L) 0).
+  { rewrite EL. destruct (rt_psi_zero offs (h L) Hnz VL) as [Z1 Z2].
+    destruct (Nat.eqb_spec (h L) 0) as [E|E]; [rewrite (Z2 E); reflexivity|].
+    destruct (N.eqb_spec (rt_psi offs (h L)) 0) as [E'|]; [exfalso; apply E, Z1, E'|reflexivity]. }
+  subst offsets'. rewrite Hz. unfold ts_head_upd. rewrite app_length. cbn [length].
+  destruct (Nat.eqb_spec M L) as [->|Hne].
+  - destruct (Nat.eqb_spec (h L) 0) as [E|E].
+    + rewrite rt_get_off_upd_eq by lia. split; [|lia].
+      replace (S (length offs)) with (S (length offs + 0)) by lia. rewrite rt_psi_new by (cbn [length]; lia). reflexivity.
+    + split; [rewrite rt_psi_app by exact VL; exact EL|lia].
+  - destruct (Nat.eqb (h L) 0).
+    + rewrite rt_get_off_upd_neq by congruence. split; [rewrite rt_psi_app by exact VM; exact EM|lia].
+    + split; [rewrite rt_psi_app by exact VM; exact EM|lia].
+Qed.
+
+(* ---- one chunk appended by jls_core_wr_index / jls_core_wr_summary ---- *)
+Lemma rt_sim_index : forall pre cs x disk h L es payload,
+  rt_S pre cs x disk h -> (1 <= L < 16)%nat -> rf_len payload < 4294967296 ->
+  payload = wm_ts_index_payload (fst (hd (0%Z, 0%nat) es)) (N.of_nat (length es)) (map (rt_ent (map rc_off cs)) es) ->
+  Forall (fun e => (snd e <= length cs)%nat) es ->
+  let bt := wm_core_wr_index (wm_tx_base x) sid (wm_tx_tk x) (N.of_nat L) payload (rf_len payload) in
+  let x1 := {| wm_tx_base := fst bt; wm_tx_tk := snd bt; wm_tx_ts := wm_tx_ts x |} in
+  exists c, rt_S pre (cs ++ [c]) x1 (disk ++ [TsIndex L es]) (ts_head_upd h L (S (length cs))) /\
+            rc_off c = wm_raw_chunk_tell (wm_b_raw (wm_tx_base x)).
+Proof.
+  intros pre cs x disk h L es payload ([Tbok Ttok Tty Tlen Tdec Tnz Tdisk Theads] & Hout) HL Hplt Hpay Hes bt x1.
+  pose proof (rf_core_wr_index (wm_tx_base x) sid (wm_tx_tk x) (N.of_nat L) payload Tbok Ttok Hplt) as X.
+  cbv zeta in X. fold bt in X.
+  destruct X as (Hbok' & Htok' & Hext & Htell & Hfe' & Hout' & Hoffs' & Hdh' & Hsh' & Hhd' & Hty' & _).
+  set (off := wm_fend (wm_b_raw (wm_tx_base x))) in *.
+  assert (Hoffnz : off <> 0) by (subst off; destruct Tbok as ((_ & H32 & _) & _); lia).
+  set (c := {| rc_off := off; rc_tag := fm_track_tag (wm_tk_type (wm_tx_tk x)) JLS_TRACK_CHUNK_INDEX;
+               rc_meta := wm_meta sid (N.of_nat L); rc_pay := payload |}) in *.
+  exists c. split; [|symmetry; exact Htell].
+  assert (Hmapoff : map rc_off (cs ++ [c]) = map rc_off cs ++ [off]) by (rewrite map_app; reflexivity).
+  split.
+  - constructor; cbn [wm_tx_base wm_tx_tk wm_tx_ts x1].
+    + exact Hbok'.
+    + exact Htok'.
+    + rewrite Hty'. exact Tty.
+    + exact Tlen.
+    + exact Tdec.
+    + rewrite Hmapoff. apply Forall_app. split; [exact Tnz|constructor; [exact Hoffnz|constructor]].
+    + rewrite Hmapoff. apply Forall2_app.
+      * eapply rt_Forall2_impl; [|exact Tdisk]. intros a b Hab. apply rt_chunk_rel_app. exact Hab.
+      * constructor; [|constructor]. cbn [rt_chunk_rel rc_tag rc_meta rc_pay c].
+        split; [rewrite Tty; reflexivity|]. split; [reflexivity|]. split.
+        -- rewrite Hpay. f_equal. apply map_ext_in. intros e He. rewrite Forall_forall in Hes. unfold rt_ent.
+           rewrite rt_psi_app by (rewrite map_length; apply Hes; exact He). reflexivity.
+        -- rewrite app_length, map_length. eapply Forall_impl; [|exact Hes]. cbv beta. intros; lia.
+    + intros M HM. rewrite Hoffs', Hmapoff, Nat2N.id. destruct Ttok as (_ & _ & _ & Hl16 & _).
+      pose proof (rt_heads_step (map rc_off cs) (wm_tk_offsets (wm_tx_tk x)) h L off Tnz Hl16 ltac:(lia) Hoffnz) as Y.
+      rewrite map_length in Y.
+      specialize (Y ltac:(intros M' HM'; destruct (Theads M' HM') as (E1 & E2); split; [exact E1|exact E2]) M HM).
+      cbv zeta in Y. destruct Y as (Y1 & Y2). split; [exact Y1|]. rewrite !app_length, map_length in *. cbn [length] in *. lia.
+  - unfold rt_out. cbn [wm_tx_base x1]. rewrite Hout'. apply rt_filter_cons_mine; [|exact Hout].
+    apply (rt_mine_tag c JLS_TRACK_CHUNK_INDEX); [tauto|cbn [rc_tag c]; rewrite Tty; reflexivity|cbn [rc_meta c]; apply rt_meta_sid; lia].
+Qed.
+
+Lemma rt_sim_summary : forall pre cs x disk h L (ss : list SE) ts0,
+  rt_S pre cs x disk h -> (1 <= L < 16)%nat -> (length ss <= d)%nat ->
+  let payload := wm_ts_summary_payload ts0 (N.of_nat (length ss)) (map encS ss) in
+  let bt := wm_core_wr_summary (wm_tx_base x) sid (wm_tx_tk x) (N.of_nat L) payload (rf_len payload) in
+  let x1 := {| wm_tx_base := fst bt; wm_tx_tk := snd bt; wm_tx_ts := wm_tx_ts x |} in
+  exists c, rt_S pre (cs ++ [c]) x1 (disk ++ [TsSummary L ss]) h.
+Proof.
+  intros pre cs x disk h L ss ts0 ([Tbok Ttok Tty Tlen Tdec Tnz Tdisk Theads] & Hout) HL Hss payload bt x1.
+  assert (Hpl : rf_len payload = 16 + 16 * N.of_nat (length ss)).
+  { subst payload. rewrite rt_summary_payload_len; [rewrite map_length; reflexivity|].
+    apply Forall_forall. intros e He. apply in_map_iff in He. destruct He as (s0 & <- & _). apply HencS. }
+  assert (Hplt : rf_len payload < 4294967296) by (rewrite Hpl; lia).
+  pose proof (rf_core_wr_summary (wm_tx_base x) sid (wm_tx_tk x) (N.of_nat L) payload Tbok Ttok Hplt) as X.
+  cbv zeta in X. fold bt in X.
+  destruct X as (Hbok' & Htok' & Hext & Htell & Hfe' & Hout' & Hoffs' & Hdh' & Hih' & Hhd' & Hty' & _).
+  set (off := wm_fend (wm_b_raw (wm_tx_base x))) in *.
+  assert (Hoffnz : off <> 0) by (subst off; destruct Tbok as ((_ & H32 & _) & _); lia).
+  set (c := {| rc_off := off; rc_tag := fm_track_tag (wm_tk_type (wm_tx_tk x)) JLS_TRACK_CHUNK_SUMMARY;
+               rc_meta := wm_meta sid (N.of_nat L); rc_pay := payload |}) in *.
+  exists c.
+  assert (Hmapoff : map rc_off (cs ++ [c]) = map rc_off cs ++ [off]) by (rewrite map_app; reflexivity).
+  split.
+  - constructor; cbn [wm_tx_base wm_tx_tk wm_tx_ts x1].
+    + exact Hbok'.
+    + exact Htok'.
+    + rewrite Hty'. exact Tty.
+    + exact Tlen.
+    + exact Tdec.
+    + rewrite Hmapoff. apply Forall_app. split; [exact Tnz|constructor; [exact Hoffnz|constructor]].
+    + rewrite Hmapoff. apply Forall2_app.
+      * eapply rt_Forall2_impl; [|exact Tdisk]. intros a b Hab. apply rt_chunk_rel_app. exact Hab.
+      * constructor; [|constructor]. cbn [rt_chunk_rel rc_tag rc_meta rc_pay c].
+        split; [rewrite Tty; reflexivity|]. split; [reflexivity|]. exists ts0. reflexivity.
+    + intros M HM. rewrite Hoffs', Hmapoff. destruct (Theads M HM) as (E1 & E2).
+      split; [rewrite rt_psi_app by (rewrite map_length; exact E2); exact E1|rewrite app_length; lia].
+  - unfold rt_out. cbn [wm_tx_base x1]. rewrite Hout'. apply rt_filter_cons_mine; [|exact Hout].
+    apply (rt_mine_tag c JLS_TRACK_CHUNK_SUMMARY); [tauto|cbn [rc_tag c]; rewrite Tty; reflexivity|cbn [rc_meta c]; apply rt_meta_sid; lia].
+Qed.
+
+
+Lemma rt_S_set_ts : forall pre cs x disk h s',
+  rt_S pre cs x disk h -> length (wm_ts_levels s') = 16%nat -> wm_ts_dec s' = N.of_nat d ->
+  rt_S pre cs (wm_tx_set_ts x s') disk h.
+Proof.
+  intros pre cs x disk h s' ([Tbok Ttok Tty Tlen Tdec Tnz Tdisk Theads] & Hout) Hl Hd.
+  split; [|exact Hout]. constructor; cbn [wm_tx_set_ts wm_tx_base wm_tx_tk wm_tx_ts]; assumption.
+Qed.
+
+Lemma rt_alloc_len : forall s l, length (wm_ts_levels (wm_ts_alloc s l)) = length (wm_ts_levels s).
+Proof. intros s l. unfold wm_ts_alloc. destruct (wm_ts_get s l); [reflexivity|apply rt_ts_set_len]. Qed.
+Lemma rt_alloc_dec : forall s l, wm_ts_dec (wm_ts_alloc s l) = wm_ts_dec s.
+Proof. intros s l. unfold wm_ts_alloc. destruct (wm_ts_get s l); reflexivity. Qed.
+Lemma rt_alloc_other : forall s l l', l <> l' -> wm_ts_get (wm_ts_alloc s l) l' = wm_ts_get s l'.
+Proof. intros s l l' H. unfold wm_ts_alloc. destruct (wm_ts_get s l); [reflexivity|apply rt_ts_get_set_neq; exact H]. Qed.
+
+Lemma rt_level0_rel : forall offs, rt_lvl_rel offs wm_ts_level0 ts_level0.
+Proof.
+  intros offs. unfold rt_lvl_rel, wm_ts_level0, ts_level0. cbn.
+  split; [reflexivity|]. split; [reflexivity|]. split; [reflexivity|]. split; [constructor|]. split; [reflexivity|]. split; lia.
+Qed.
+
+Lemma rt_get_16 : forall s, length (wm_ts_levels s) = 16%nat -> forall M, (16 <= M)%nat -> wm_ts_get s (N.of_nat M) = None.
+Proof. intros s Hl M HM. unfold wm_ts_get. rewrite Nat2N.id. apply nth_overflow. lia. Qed.
+
+Lemma rt_lvls_cons : forall offs s L l r lv,
+  wm_ts_get s (N.of_nat L) = Some lv -> rt_lvl_rel offs lv l -> rt_lvls offs s (S L) r -> rt_lvls offs s L (l :: r).
+Proof. intros offs s L l r lv H1 H2 H3. cbn [rt_lvls]. split; [exists lv; split; assumption|exact H3]. Qed.
+
+(* ---- commit(level, mode) ---- *)
+Lemma rt_sim_commit : forall fuel L wfuel close pre cs x disk h l ups l' ups' ch h',
+  rt_S pre cs x disk h -> rt_lvls (map rc_off cs) (wm_tx_ts x) L (l :: ups) -> (1 <= L < 16)%nat -> (fuel <= wfuel)%nat ->
+  ts_commit A SE fuel d close L l ups (length cs) h = TsCRes A SE true l' ups' ch h' ->
+  let x' := wm_ts_commit wfuel sid close (N.of_nat L) x in
+  exists cs', rt_S pre (cs ++ cs') x' (disk ++ ch) h' /\
+              rt_lvls (map rc_off (cs ++ cs')) (wm_tx_ts x') L (l' :: ups').
+Proof.
+  induction fuel as [|f IH]; intros L wfuel close pre cs x disk h l ups l' ups' ch h' HS Hlv HL Hwf Hc x'; [discriminate Hc|].
+  destruct wfuel as [|wf]; [lia|]. subst x'. cbn [wm_ts_commit ts_commit] in *.
+  pose proof HS as (HR & Hout). pose proof HR as [Tbok Ttok Tty Tlen Tdec Tnz Tdisk Theads].
+  cbn [rt_lvls] in Hlv. destruct Hlv as ((lv & Hget & Hrel) & Hups).
+  rewrite Hget. destruct Hrel as (A1 & A2 & A3 & A4 & A5 & A6 & A7).
+  assert (Hlenidx : length (wm_tl_idx lv) = length (tl_idx l)) by (rewrite <- (rev_length (wm_tl_idx lv)), A3, map_length; reflexivity).
+  assert (Hlensum : length (wm_tl_sum lv) = length (tl_sum l)) by (rewrite <- (rev_length (wm_tl_sum lv)), A5, map_length; reflexivity).
+  destruct (tl_idx l) as [|e0 es0] eqn:Eidx.
+  - (* nothing pending *)
+    injection Hc as <- <- <- <-. rewrite A1, Hlenidx. cbn [length N.of_nat N.eqb].
+    exists []. rewrite !app_nil_r. split; [exact HS|]. cbn [rt_lvls]. split; [|exact Hups].
+    exists lv. split; [exact Hget|]. unfold rt_lvl_rel. rewrite Eidx. repeat split; assumption.
+  - assert (Hnz : (wm_tl_nidx lv =? 0) = false) by (rewrite A1, Hlenidx; reflexivity). rewrite Hnz.
+    assert (Hcl : (negb close && (JLS_SUMMARY_LEVEL_COUNT <=? N.of_nat L + 1)) = (negb close && (ts_LEVEL_COUNT <=? S L)%nat)).
+    { f_equal. unfold JLS_SUMMARY_LEVEL_COUNT, ts_LEVEL_COUNT.
+      destruct (N.leb_spec 16 (N.of_nat L + 1)); destruct (Nat.leb_spec 16 (S L)); try reflexivity; lia. }
+    rewrite Hcl. destruct (negb close && (ts_LEVEL_COUNT <=? S L)%nat) eqn:Ecl; [discriminate Hc|].
+    (* the INDEX chunk *)
+    set (idx := wm_rev (wm_tl_idx lv)) in *. set (sums := wm_rev (wm_tl_sum lv)) in *.
+    assert (Eidxw : idx = map (rt_ent (map rc_off cs)) (e0 :: es0)) by (subst idx; rewrite wm_rev_eq; exact A3).
+    assert (Esums : sums = map encS (tl_sum l)) by (subst sums; rewrite wm_rev_eq; exact A5).
+    assert (Ets0 : fst (hd (0%Z, 0) idx) = fst e0) by (rewrite Eidxw; reflexivity).
+    rewrite Ets0.
+    set (ipay := wm_ts_index_payload (fst e0) (wm_tl_nidx lv) idx).
+    assert (Eipay : ipay = wm_ts_index_payload (fst (hd (0%Z, 0%nat) (e0 :: es0))) (N.of_nat (length (e0 :: es0))) (map (rt_ent (map rc_off cs)) (e0 :: es0))).
+    { subst ipay. rewrite Eidxw, A1, Hlenidx. reflexivity. }
+    assert (Eiplen : rf_len ipay = SIZEOF_payload_header + SIZEOF_index_entry * wm_tl_nidx lv).
+    { rewrite Eipay, rt_index_payload_len, map_length, A1, Hlenidx. reflexivity. }
+    assert (Hiplt : rf_len ipay < 4294967296).
+    { rewrite Eiplen, A1, Hlenidx. unfold SIZEOF_payload_header, SIZEOF_index_entry. lia. }
+    rewrite <- Eiplen.
+    assert (Hes : Forall (fun e => (snd e <= length cs)%nat) (e0 :: es0)) by (rewrite map_length in A4; exact A4).
+    destruct (rt_sim_index pre cs x disk h L (e0 :: es0) ipay HS HL Hiplt Eipay Hes) as (ci & HS1 & Hoffi).
+    cbv zeta in HS1.
+    destruct (wm_core_wr_index (wm_tx_base x) sid (wm_tx_tk x) (N.of_nat L) ipay (rf_len ipay)) as [b1 t1] eqn:Ewi. cbn [fst snd] in HS1.
+    (* the SUMMARY chunk *)
+    set (s1 := if close then wm_tx_ts x else wm_ts_alloc (wm_tx_ts x) (N.of_nat L + 1)) in *.
+    set (spay := wm_ts_summary_payload (fst e0) (wm_tl_nsum lv) sums).
+    assert (Espay : spay = wm_ts_summary_payload (fst e0) (N.of_nat (length (tl_sum l))) (map encS (tl_sum l))).
+    { subst spay. rewrite Esums, A2, Hlensum. reflexivity. }
+    assert (Esplen : rf_len spay = SIZEOF_payload_header + 16 * wm_tl_nsum lv).
+    { rewrite Espay, rt_summary_payload_len; [rewrite map_length, A2, Hlensum; reflexivity|].
+      apply Forall_forall. intros e He. apply in_map_iff in He. destruct He as (s0 & <- & _). apply HencS. }
+    rewrite <- Esplen.
+    set (s2 := match wm_ts_get s1 (N.of_nat L + 1) with
+               | Some up => wm_ts_set s1 (N.of_nat L + 1)
+                   (Some (if close then wm_tl_push_idx up (fst e0, wm_raw_chunk_tell (wm_b_raw (wm_tx_base x)))
+                          else wm_tl_push_sum (wm_tl_push_idx up (fst e0, wm_raw_chunk_tell (wm_b_raw (wm_tx_base x)))) (hd wm_zero16 sums)))
+               | None => s1 end).
+    set (x1 := {| wm_tx_base := b1; wm_tx_tk := t1; wm_tx_ts := wm_tx_ts x |}) in *.
+    destruct (rt_sim_summary pre (cs ++ [ci]) x1 (disk ++ [TsIndex L (e0 :: es0)]) _ L (tl_sum l) (fst e0) HS1 HL A7) as (cs0 & HS2).
+    cbv zeta in HS2. rewrite <- Espay in HS2. cbn [wm_tx_base wm_tx_tk wm_tx_ts x1] in HS2.
+    destruct (wm_core_wr_summary b1 sid t1 (N.of_nat L) spay (rf_len spay)) as [b2 t2] eqn:Ews. cbn [fst snd] in HS2.
+    set (h1 := ts_head_upd h L (S (length cs))) in *.
+    set (cs2 := (cs ++ [ci]) ++ [cs0]) in *.
+    set (disk2 := (disk ++ [TsIndex L (e0 :: es0)]) ++ [TsSummary L (tl_sum l)]) in *.
+    assert (Hlen2 : length cs2 = (length cs + 2)%nat) by (subst cs2; rewrite !app_length; cbn [length]; lia).
+    assert (Hoffs2 : map rc_off cs2 = map rc_off cs ++ [rc_off ci; rc_off cs0]).
+    { subst cs2. rewrite !map_app. cbn [map]. rewrite <- app_assoc. reflexivity. }
+    assert (Hs1len : length (wm_ts_levels s1) = 16%nat) by (subst s1; destruct close; [exact Tlen|rewrite rt_alloc_len; exact Tlen]).
+    assert (Hs1dec : wm_ts_dec s1 = N.of_nat d) by (subst s1; destruct close; [exact Tdec|rewrite rt_alloc_dec; exact Tdec]).
+    assert (Hs1L : wm_ts_get s1 (N.of_nat L) = Some lv).
+    { subst s1. destruct close; [exact Hget|]. rewrite rt_alloc_other by lia. exact Hget. }
+    assert (Hpsi : rt_psi (map rc_off cs2) (S (length cs)) = wm_raw_chunk_tell (wm_b_raw (wm_tx_base x))).
+    { rewrite Hoffs2. replace (S (length cs)) with (S (length (map rc_off cs) + 0)) by (rewrite map_length; lia).
+      rewrite rt_psi_new by (cbn [length]; lia). cbn [nth]. exact Hoffi. }
+    (* TsModel's view of the upper level *)
+    set (ups1 := if close then ups else match ups with [] => [ts_level0] | _ => ups end) in *.
+    (* wm levels S L .. against ups1 *)
+    assert (Hups1 : rt_lvls (map rc_off cs) s1 (S L) ups1).
+    { subst s1 ups1. destruct close; [exact Hups|].
+      cbn [negb andb] in Ecl. apply Nat.leb_gt in Ecl. unfold ts_LEVEL_COUNT in Ecl.
+      destruct ups as [|u0 ur].
+      - cbn [rt_lvls] in *. split.
+        + exists wm_ts_level0. split; [|apply rt_level0_rel].
+          unfold wm_ts_alloc. rewrite rf_ofnat_succ_t. rewrite (Hups (S L)) by lia. apply rt_ts_get_set_eq. rewrite Tlen. lia.
+        + intros M HM. rewrite rt_alloc_other by lia. apply Hups. lia.
+      - cbn [rt_lvls] in Hups. destruct Hups as ((lvu & Hgu & Hru) & Hrest).
+        eapply rt_lvls_ext; [|cbn [rt_lvls]; split; [exists lvu; split; [exact Hgu|exact Hru]|exact Hrest]].
+        intros M HM. unfold wm_ts_alloc. rewrite rf_ofnat_succ_t, Hgu. reflexivity. }
+    destruct ups1 as [|u ups2] eqn:Eups1.
+    + (* no upper level (CLOSE mode) *)
+      injection Hc as <- <- <- <-.
+      assert (Hnone : wm_ts_get s1 (N.of_nat L + 1) = None).
+      { rewrite rf_ofnat_succ_t. destruct (Nat.lt_ge_cases (S L) 16) as [Hlt|Hge]; [apply Hups1; lia|apply rt_get_16; [exact Hs1len|exact Hge]]. }
+      subst s2. rewrite Hnone. cbv beta iota. rewrite Hnone.
+      set (x2 := {| wm_tx_base := b2; wm_tx_tk := t2; wm_tx_ts := s1 |}).
+      exists [ci; cs0].
+      replace (cs ++ [ci; cs0]) with cs2 by (subst cs2; rewrite <- app_assoc; reflexivity).
+      replace (disk ++ [TsIndex L (e0 :: es0); TsSummary L (tl_sum l)]) with disk2 by (subst disk2; rewrite <- app_assoc; reflexivity).
+      split.
+      * apply rt_S_set_ts; [|rewrite rt_ts_set_len; exact Hs1len|rewrite rt_ts_set_dec; exact Hs1dec].
+        apply (rt_S_set_ts pre cs2 {| wm_tx_base := b2; wm_tx_tk := t2; wm_tx_ts := wm_tx_ts x |} disk2 h1 s1 HS2 Hs1len Hs1dec).
+      * subst x2. cbn [wm_tx_set_ts wm_tx_ts]. apply (rt_lvls_cons _ _ _ _ _ wm_ts_level0).
+        -- apply rt_ts_get_set_eq; rewrite Hs1len; lia.
+        -- apply rt_level0_rel.
+        -- cbn [rt_lvls]. intros M HM. rewrite rt_ts_get_set_neq by lia. apply Hups1. lia.
+    + (* an upper level exists: one index entry (and, NORMAL mode, one summary entry) goes up *)
+      cbn [rt_lvls] in Hups1. destruct Hups1 as ((up & Hgup & Hrup) & Hups2).
+      destruct (Nat.leb_spec d (length (tl_idx u))) as [Hov|Hfit]; [discriminate Hc|].
+      rewrite <- rf_ofnat_succ_t in Hgup. subst s2. rewrite Hgup.
+      destruct Hrup as (U1 & U2 & U3 & U4 & U5 & U6 & U7).
+      set (uidx := tl_idx u ++ [(fst e0, S (length cs))]) in *.
+      (* the summary part *)
+      assert (Husum : exists us up2,
+                (if close then Some (tl_sum u)
+                 else match tl_sum l with [] => None | s0 :: _ => if (d <=? length (tl_sum u))%nat then None else Some (tl_sum u ++ [s0]) end) = Some us /\
+                (if close then wm_tl_push_idx up (fst e0, wm_raw_chunk_tell (wm_b_raw (wm_tx_base x)))
+                 else wm_tl_push_sum (wm_tl_push_idx up (fst e0, wm_raw_chunk_tell (wm_b_raw (wm_tx_base x)))) (hd wm_zero16 sums)) = up2 /\
+                rt_lvl_rel (map rc_off cs2) up2 {| tl_idx := uidx; tl_sum := us |}).
+      { assert (Hidxrel : rev ((fst e0, wm_raw_chunk_tell (wm_b_raw (wm_tx_base x))) :: wm_tl_idx up) = map (rt_ent (map rc_off cs2)) uidx).
+        { cbn [rev]. rewrite U3. subst uidx. rewrite map_app. cbn [map]. unfold rt_ent at 3. cbn [fst snd]. rewrite Hpsi. f_equal.
+          apply map_ext_in. intros e He. rewrite Forall_forall in U4. unfold rt_ent. rewrite Hoffs2, rt_psi_app by (apply U4; exact He). reflexivity. }
+        assert (Hidxv : Forall (fun e => (snd e <= length (map rc_off cs2))%nat) uidx).
+        { subst uidx. apply Forall_app. split.
+          - eapply Forall_impl; [|exact U4]. cbv beta. intros a Ha. rewrite !map_length in *. lia.
+          - constructor; [cbn [snd]; rewrite map_length; lia|constructor]. }
+        assert (Hidxl : (length uidx <= d)%nat) by (subst uidx; rewrite app_length; cbn [length]; lia).
+        destruct close.
+        - eexists. eexists. split; [reflexivity|]. split; [reflexivity|].
+          unfold rt_lvl_rel, wm_tl_push_idx. cbn [wm_tl_nidx wm_tl_idx wm_tl_nsum wm_tl_sum tl_idx tl_sum].
+          split; [rewrite U1; cbn [length]; lia|]. split; [exact U2|]. split; [exact Hidxrel|]. split; [exact Hidxv|].
+          split; [exact U5|]. split; assumption.
+        - destruct (tl_sum l) as [|s0 sr] eqn:Esl; [discriminate Hc|].
+          destruct (Nat.leb_spec d (length (tl_sum u))) as [Hov2|Hfit2]; [discriminate Hc|].
+          eexists. eexists. split; [reflexivity|]. split; [reflexivity|].
+          unfold rt_lvl_rel, wm_tl_push_idx, wm_tl_push_sum. cbn [wm_tl_nidx wm_tl_idx wm_tl_nsum wm_tl_sum tl_idx tl_sum].
+          split; [rewrite U1; cbn [length]; lia|]. split; [rewrite U2; cbn [length]; lia|]. split; [exact Hidxrel|]. split; [exact Hidxv|].
+          split; [cbn [rev]; rewrite U5, Esums, map_app; reflexivity|]. split; [exact Hidxl|rewrite app_length; cbn [length]; lia]. }
+      destruct Husum as (us & up2 & Eus & Eup2 & Hrel2). rewrite Eus in Hc. rewrite Eup2.
+      set (s2 := wm_ts_set s1 (N.of_nat L + 1) (Some up2)).
+      set (x2 := {| wm_tx_base := b2; wm_tx_tk := t2; wm_tx_ts := s2 |}).
+      assert (Hs2len : length (wm_ts_levels s2) = 16%nat) by (subst s2; rewrite rt_ts_set_len; exact Hs1len).
+      assert (Hs2dec : wm_ts_dec s2 = N.of_nat d) by (subst s2; rewrite rt_ts_set_dec; exact Hs1dec).
+      assert (HSL : (S L < 16)%nat).
+      { destruct (Nat.lt_ge_cases (S L) 16) as [Hlt|Hge]; [exact Hlt|].
+        rewrite rf_ofnat_succ_t, (rt_get_16 s1 Hs1len (S L) Hge) in Hgup. discriminate Hgup. }
+      assert (Hget2 : wm_ts_get s2 (N.of_nat L + 1) = Some up2) by (subst s2; apply rt_ts_get_set_eq; rewrite Hs1len; lia).
+      rewrite Hget2. rewrite Hs2dec.
+      assert (HSx2 : rt_S pre cs2 x2 disk2 h1).
+      { apply (rt_S_set_ts pre cs2 {| wm_tx_base := b2; wm_tx_tk := t2; wm_tx_ts := wm_tx_ts x |} disk2 h1 s2 HS2 Hs2len Hs2dec). }
+      assert (Hlv2 : rt_lvls (map rc_off cs2) s2 (S L) ({| tl_idx := uidx; tl_sum := us |} :: ups2)).
+      { cbn [rt_lvls]. split; [exists up2; split; [rewrite <- rf_ofnat_succ_t; exact Hget2|exact Hrel2]|].
+        eapply rt_lvls_ext; [|rewrite Hoffs2; apply rt_lvls_app; exact Hups2].
+        intros M HM. subst s2. apply rt_ts_get_set_neq. lia. }
+      assert (Htest : (N.of_nat d <=? wm_tl_nidx up2) = (d <=? length uidx)%nat).
+      { destruct Hrel2 as (V1 & _ & V3 & _). cbn [tl_idx] in V3. rewrite V1.
+        assert (length (wm_tl_idx up2) = length uidx) by (rewrite <- (rev_length (wm_tl_idx up2)), V3, map_length; reflexivity).
+        destruct (N.leb_spec (N.of_nat d) (N.of_nat (length (wm_tl_idx up2)))); destruct (Nat.leb_spec d (length uidx)); try reflexivity; lia. }
+      rewrite Htest.
+      destruct (Nat.leb_spec d (length uidx)) as [Hfull|Hnot].
+      * (* the upper level is full: commit it *)
+        replace (length cs + 2)%nat with (length cs2) in Hc by lia.
+        destruct (ts_commit A SE f d close (S L) {| tl_idx := uidx; tl_sum := us |} ups2 (length cs2) h1) as [|ok u2 ups3 ch3 h3] eqn:Erec; [discriminate Hc|].
+        destruct ok; [|discriminate Hc]. injection Hc as <- <- <- <-.
+        destruct (IH (S L) wf close pre cs2 x2 disk2 h1 _ ups2 u2 ups3 ch3 h3 HSx2 Hlv2 ltac:(lia) ltac:(lia) Erec) as (cs3 & HS3 & Hlv3).
+        rewrite <- rf_ofnat_succ_t in HS3, Hlv3.
+        set (x3 := wm_ts_commit wf sid close (N.of_nat L + 1) x2) in *. clearbody x3.
+        exists ([ci; cs0] ++ cs3).
+        replace (cs ++ [ci; cs0] ++ cs3) with (cs2 ++ cs3) by (subst cs2; rewrite <- !app_assoc; reflexivity).
+        replace (disk ++ TsIndex L (e0 :: es0) :: TsSummary L (tl_sum l) :: ch3) with (disk2 ++ ch3) by (subst disk2; rewrite <- !app_assoc; reflexivity).
+        pose proof HS3 as ([T3bok T3tok T3ty T3len T3dec _ _ _] & _).
+        split.
+        -- apply rt_S_set_ts; [exact HS3|rewrite rt_ts_set_len; exact T3len|rewrite rt_ts_set_dec; exact T3dec].
+        -- cbn [wm_tx_set_ts wm_tx_ts]. apply (rt_lvls_cons _ _ _ _ _ wm_ts_level0).
+           ++ apply rt_ts_get_set_eq; rewrite T3len; lia.
+           ++ apply rt_level0_rel.
+           ++ eapply rt_lvls_ext; [|exact Hlv3]. intros M HM. apply rt_ts_get_set_neq. lia.
+      * injection Hc as <- <- <- <-.
+        exists [ci; cs0].
+        replace (cs ++ [ci; cs0]) with cs2 by (subst cs2; rewrite <- app_assoc; reflexivity).
+        replace (disk ++ [TsIndex L (e0 :: es0); TsSummary L (tl_sum l)]) with disk2 by (subst disk2; rewrite <- app_assoc; reflexivity).
+        split.
+        -- apply rt_S_set_ts; [exact HSx2|rewrite rt_ts_set_len; exact Hs2len|rewrite rt_ts_set_dec; exact Hs2dec].
+        -- subst x2. cbn [wm_tx_set_ts wm_tx_ts]. apply (rt_lvls_cons _ _ _ _ _ wm_ts_level0).
+           ++ apply rt_ts_get_set_eq; rewrite Hs2len; lia.
+           ++ apply rt_level0_rel.
+           ++ eapply rt_lvls_ext; [|exact Hlv2]. intros M HM. apply rt_ts_get_set_neq. lia.
+Qed.
+
+
+(* ---- the DATA chunk of jls_wr_annotation / jls_wr_utc ---- *)
+Hypothesis HencA : forall r, rf_len (encA r) < 4294967296.
+
+Lemma rt_sim_data : forall pre cs x disk h r,
+  rt_S pre cs x disk h ->
+  let b := wm_tx_base x in
+  let t := wm_tx_tk x in
+  let offset := wm_raw_chunk_tell (wm_b_raw b) in
+  let hd0 := wm_mk_hdr (wm_ck_offset (wm_tk_data_head t)) (rt_tag JLS_TRACK_CHUNK_DATA) sid (rf_len (encA r)) in
+  let r1 := fst (wm_raw_wr (wm_b_raw b) hd0 (encA r)) in
+  let h1 := snd (wm_raw_wr (wm_b_raw b) hd0 (encA r)) in
+  let r2 := fst (wm_update_item_head r1 (wm_tk_data_head t) {| wm_ck_offset := offset; wm_ck_hdr := h1 |}) in
+  let dh := snd (wm_update_item_head r1 (wm_tk_data_head t) {| wm_ck_offset := offset; wm_ck_hdr := h1 |}) in
+  let bt := wm_track_update (wm_b_set_raw b r2) sid (wm_tk_set_data_head t dh) 0 offset in
+  let x1 := {| wm_tx_base := fst bt; wm_tx_tk := snd bt; wm_tx_ts := wm_tx_ts x |} in
+  exists c, rt_S pre (cs ++ [c]) x1 (disk ++ [TsData r]) (ts_head_upd h 0 (S (length cs))) /\ rc_off c = offset.
+Proof.
+  intros pre cs x disk h r ([Tbok Ttok Tty Tlen Tdec Tnz Tdisk Theads] & Hout) b t offset hd0 r1 h1 r2 dh bt x1.
+  pose proof Tbok as (Hr & B1 & B2 & B3). pose proof Ttok as (Kd & Ki & Ks & Kl & Kt & Kh1 & Kh2 & Kh3).
+  destruct (rt_tag_ok JLS_TRACK_CHUNK_DATA ltac:(unfold JLS_TRACK_CHUNK_DATA, JLS_TRACK_CHUNK_SUMMARY; lia)) as (Htag0 & Htag).
+  pose proof (rf_append_link (wm_b_raw b) (wm_tk_data_head t) (wm_ck_offset (wm_tk_data_head t))
+                (rt_tag JLS_TRACK_CHUNK_DATA) sid (encA r) Hr Kd Htag0 Htag ltac:(lia) (HencA r)) as X.
+  cbv zeta in X. fold offset hd0 r1 h1 r2 dh in X.
+  destruct X as (Hr2 & Hoff & Hfe2 & Hout2 & Hnh & Hin2 & Hpl2 & Hi2).
+  assert (Hext1 : rf_ext (wm_b_raw b) r2).
+  { eapply rf_ext_of with (new := [_]); [pose proof (rf_chunk_size_pos (rf_len (encA r))); lia | exact Hi2 | exact Hout2]. }
+  assert (Hb1 : rf_bok (wm_b_set_raw b r2)).
+  { unfold rf_bok. cbn [wm_b_raw wm_b_set_raw wm_b_source_head wm_b_signal_head wm_b_ud_head].
+    split; [exact Hr2|]. split; [eapply rf_ref_ext; eauto|]. split; eapply rf_ref_ext; eauto. }
+  assert (Ht1 : rf_tok r2 (wm_tk_set_data_head t dh)).
+  { pose proof (rf_tok_ext _ _ _ Hext1 Ttok) as (A' & B' & C' & D' & E' & F' & G' & H').
+    unfold rf_tok. cbn [wm_tk_set_data_head wm_tk_data_head wm_tk_index_head wm_tk_summary_head wm_tk_offsets wm_tk_type wm_tk_head].
+    split; [rewrite Hnh; right; exact Hin2|]. repeat (split; [assumption|]). assumption. }
+  pose proof (rf_track_update (wm_b_set_raw b r2) sid (wm_tk_set_data_head t dh) 0 offset Hb1 Ht1) as Y.
+  cbv zeta in Y. fold bt in Y. cbn [wm_b_raw wm_b_set_raw] in Y.
+  destruct Y as (Hbok' & Htok' & Hfe' & Hout' & Hd' & Hoffs' & _ & _ & _ & _ & Hty' & _).
+  assert (Hoffnz : offset <> 0).
+  { rewrite Hoff. destruct Hr as (_ & H32 & _). intro E0. change (wm_b_raw (wm_tx_base x)) with (wm_b_raw b) in H32. rewrite E0 in H32. lia. }
+  set (c := {| rc_off := offset; rc_tag := rt_tag JLS_TRACK_CHUNK_DATA; rc_meta := sid; rc_pay := encA r |}) in *.
+  exists c. split; [|reflexivity].
+  assert (Hmapoff : map rc_off (cs ++ [c]) = map rc_off cs ++ [offset]) by (rewrite map_app; reflexivity).
+  split.
+  - constructor; cbn [wm_tx_base wm_tx_tk wm_tx_ts x1].
+    + exact Hbok'.
+    + exact Htok'.
+    + rewrite Hty'. exact Tty.
+    + exact Tlen.
+    + exact Tdec.
+    + rewrite Hmapoff. apply Forall_app. split; [exact Tnz|constructor; [exact Hoffnz|constructor]].
+    + rewrite Hmapoff. apply Forall2_app.
+      * eapply rt_Forall2_impl; [|exact Tdisk]. intros a0 b0 Hab. apply rt_chunk_rel_app. exact Hab.
+      * constructor; [|constructor]. cbn [rt_chunk_rel rc_tag rc_meta rc_pay c]. repeat split.
+    + intros M HM. rewrite Hoffs', Hmapoff. cbn [wm_tk_set_data_head wm_tk_offsets]. change (N.to_nat 0) with 0%nat.
+      pose proof (rt_heads_step (map rc_off cs) (wm_tk_offsets t) h 0 offset Tnz Kl ltac:(lia) Hoffnz) as Z.
+      rewrite map_length in Z.
+      specialize (Z ltac:(intros M' HM'; destruct (Theads M' HM') as (E1 & E2); split; [exact E1|exact E2]) M HM).
+      cbv zeta in Z. destruct Z as (Z1 & Z2). split; [exact Z1|]. rewrite !app_length, map_length in *. cbn [length] in *. lia.
+  - unfold rt_out. cbn [wm_tx_base x1]. rewrite Hout', Hout2. apply rt_filter_cons_mine; [|exact Hout].
+    apply (rt_mine_tag c JLS_TRACK_CHUNK_DATA); [tauto|reflexivity|cbn [rc_meta c]; apply rt_sid_land].
+Qed.
+
+(* ---- one record: jls_wr_annotation / jls_wr_utc ---- *)
+Definition rt_W (pre cs : list rf_chunk) (x : wm_tx) (w : ts_wr A SE) : Prop :=
+  rt_S pre cs x (tw_disk w) (tw_head w) /\ rt_lvls (map rc_off cs) (wm_tx_ts x) 1 (tw_lv w) /\ tw_st w = TsOk.
+
+Definition rt_rec (x : wm_tx) (r : A) : wm_tx :=
+  rt_write sid (rt_tag JLS_TRACK_CHUNK_DATA) x (encA r) (rf_len (encA r)) (key r) (encS (summ r)).
+
+Lemma rt_sim_write : forall wfuel pre cs x w r, (16 <= wfuel)%nat ->
+  rt_W pre cs x w -> tw_st (ts_write A SE key summ d w r) = TsOk ->
+  let x' := (* rt_rec with the fuel of commit generalised *)
+    let b := wm_tx_base x in let t := wm_tx_tk x in
+    let offset := wm_raw_chunk_tell (wm_b_raw b) in
+    let hd0 := wm_mk_hdr (wm_ck_offset (wm_tk_data_head t)) (rt_tag JLS_TRACK_CHUNK_DATA) sid (rf_len (encA r)) in
+    let '(r1, h1) := wm_raw_wr (wm_b_raw b) hd0 (encA r) in
+    let '(r2, dh) := wm_update_item_head r1 (wm_tk_data_head t) {| wm_ck_offset := offset; wm_ck_hdr := h1 |} in
+    let '(b1, t1) := wm_track_update (wm_b_set_raw b r2) sid (wm_tk_set_data_head t dh) 0 offset in
+    let y := {| wm_tx_base := b1; wm_tx_tk := t1; wm_tx_ts := wm_tx_ts x |} in
+    let s := wm_tx_ts y in
+    if wm_ts_dec s <=? 1 then wm_tx_fault y
+    else let s1 := wm_ts_alloc s 1 in
+         match wm_ts_get s1 1 with
+         | None => wm_tx_fault y
+         | Some lv =>
+           let lv1 := wm_tl_push_sum (wm_tl_push_idx lv (key r, offset)) (encS (summ r)) in
+           let y1 := wm_tx_set_ts y (wm_ts_set s1 1 (Some lv1)) in
+           if wm_ts_dec s <=? wm_tl_nidx lv1 then wm_ts_commit wfuel sid false 1 y1 else y1
+         end in
+  exists cs', rt_W pre (cs ++ cs') x' (ts_write A SE key summ d w r).
+Proof.
+  intros wfuel pre cs x w r Hwf (HS & Hlv & Hst) Hst' x'. subst x'. cbv zeta.
+  destruct (rt_sim_data pre cs x (tw_disk w) (tw_head w) r HS) as (c & HS1 & Hoffc). cbv zeta in HS1.
+  destruct (wm_raw_wr _ _ (encA r)) as [r1 h1]. cbn [fst snd] in HS1.
+  destruct (wm_update_item_head r1 _ _) as [r2 dh]. cbn [fst snd] in HS1.
+  destruct (wm_track_update _ sid _ 0 _) as [b1 t1]. cbn [fst snd] in HS1.
+  cbv zeta. cbn [wm_tx_ts].
+  pose proof HS1 as ([Tbok Ttok Tty Tlen Tdec Tnz Tdisk Theads] & Hout). cbn [wm_tx_ts] in Tlen, Tdec.
+  rewrite Tdec. destruct (N.leb_spec (N.of_nat d) 1) as [Hbad|_]; [lia|].
+  set (offset := wm_raw_chunk_tell (wm_b_raw (wm_tx_base x))) in *.
+  set (y := {| wm_tx_base := b1; wm_tx_tk := t1; wm_tx_ts := wm_tx_ts x |}) in *.
+  set (cs1 := cs ++ [c]) in *.
+  assert (Hlen1 : length cs1 = S (length cs)) by (subst cs1; rewrite app_length; cbn [length]; lia).
+  assert (Hoffs1 : map rc_off cs1 = map rc_off cs ++ [offset]) by (subst cs1; rewrite map_app; cbn [map]; rewrite Hoffc; reflexivity).
+  assert (Hpsi : rt_psi (map rc_off cs1) (S (length cs)) = offset).
+  { rewrite Hoffs1. replace (S (length cs)) with (S (length (map rc_off cs) + 0)) by (rewrite map_length; lia).
+    rewrite rt_psi_new by (cbn [length]; lia). reflexivity. }
+  (* TsModel side *)
+  unfold ts_write in Hst' |- *. rewrite Hst in *.
+  set (lvs1 := match tw_lv w with [] => [ts_level0] | _ => tw_lv w end) in *.
+  set (s1 := wm_ts_alloc (wm_tx_ts x) 1).
+  assert (Hs1len : length (wm_ts_levels s1) = 16%nat) by (subst s1; rewrite rt_alloc_len; exact Tlen).
+  assert (Hs1dec : wm_ts_dec s1 = N.of_nat d) by (subst s1; rewrite rt_alloc_dec; exact Tdec).
+  assert (Hlvs1 : rt_lvls (map rc_off cs) s1 1 lvs1).
+  { subst s1 lvs1. destruct (tw_lv w) as [|l0 lr].
+    - cbn [rt_lvls] in *. split.
+      + exists wm_ts_level0. split; [|apply rt_level0_rel].
+        unfold wm_ts_alloc. change 1 with (N.of_nat 1) at 1 2. rewrite (Hlv 1%nat) by lia. apply rt_ts_get_set_eq. rewrite Tlen. cbv. lia.
+      + intros M HM. change 1 with (N.of_nat 1). rewrite rt_alloc_other by lia. apply Hlv. lia.
+    - cbn [rt_lvls] in Hlv. destruct Hlv as ((lvu & Hgu & Hru) & Hrest).
+      eapply rt_lvls_ext; [|cbn [rt_lvls]; split; [exists lvu; split; [exact Hgu|exact Hru]|exact Hrest]].
+      intros M HM. unfold wm_ts_alloc. change 1 with (N.of_nat 1). rewrite Hgu. reflexivity. }
+  destruct lvs1 as [|l ups] eqn:El1; [cbn [tw_st] in Hst'; discriminate Hst'|].
+  cbn [rt_lvls] in Hlvs1. destruct Hlvs1 as ((lv & Hget & Hrel) & Hups). change (N.of_nat 1) with 1 in Hget. rewrite Hget.
+  destruct ((d <=? length (tl_idx l))%nat || (d <=? length (tl_sum l))%nat) eqn:Eov; [cbn [tw_st] in Hst'; discriminate Hst'|].
+  apply orb_false_iff in Eov. destruct Eov as (Eo1 & Eo2). apply Nat.leb_gt in Eo1, Eo2.
+  destruct Hrel as (U1 & U2 & U3 & U4 & U5 & U6 & U7).
+  set (l1 := {| tl_idx := tl_idx l ++ [(key r, S (length (tw_disk w)))]; tl_sum := tl_sum l ++ [summ r] |}) in *.
+  set (lv1 := wm_tl_push_sum (wm_tl_push_idx lv (key r, offset)) (encS (summ r))).
+  assert (Hdlen : length (tw_disk w) = length cs).
+  { destruct HS as ([_ _ _ _ _ _ Td _] & _). symmetry. apply (rt_Forall2_len _ _ _ _ _ Td). }
+  assert (Hrel1 : rt_lvl_rel (map rc_off cs1) lv1 l1).
+  { subst lv1 l1. unfold rt_lvl_rel, wm_tl_push_idx, wm_tl_push_sum. cbn [wm_tl_nidx wm_tl_idx wm_tl_nsum wm_tl_sum tl_idx tl_sum].
+    split; [rewrite U1; cbn [length]; lia|]. split; [rewrite U2; cbn [length]; lia|].
+    split. { cbn [rev]. rewrite U3, map_app. cbn [map]. unfold rt_ent at 3. cbn [fst snd]. rewrite Hdlen, Hpsi. f_equal.
+             apply map_ext_in. intros e He. rewrite Forall_forall in U4. unfold rt_ent. rewrite Hoffs1, rt_psi_app by (apply U4; exact He). reflexivity. }
+    split. { apply Forall_app. split; [eapply Forall_impl; [|exact U4]; cbv beta; intros a0 Ha; rewrite !map_length in *; lia|].
+             constructor; [cbn [snd]; rewrite map_length; lia|constructor]. }
+    split; [cbn [rev]; rewrite U5, map_app; reflexivity|]. rewrite !app_length. cbn [length]. split; lia. }
+  set (s2 := wm_ts_set s1 1 (Some lv1)).
+  assert (Hs2len : length (wm_ts_levels s2) = 16%nat) by (subst s2; rewrite rt_ts_set_len; exact Hs1len).
+  assert (Hs2dec : wm_ts_dec s2 = N.of_nat d) by (subst s2; rewrite rt_ts_set_dec; exact Hs1dec).
+  assert (HSy1 : rt_S pre cs1 (wm_tx_set_ts y s2) (tw_disk w ++ [TsData r]) (ts_head_upd (tw_head w) 0 (S (length cs)))).
+  { apply rt_S_set_ts; [exact HS1|exact Hs2len|exact Hs2dec]. }
+  assert (Hlvy1 : rt_lvls (map rc_off cs1) s2 1 (l1 :: ups)).
+  { apply (rt_lvls_cons _ _ _ _ _ lv1); [subst s2; change (N.of_nat 1) with 1; apply rt_ts_get_set_eq; rewrite Hs1len; cbv; lia|exact Hrel1|].
+    eapply rt_lvls_ext; [|rewrite Hoffs1; apply rt_lvls_app; exact Hups].
+    intros M HM. subst s2. apply rt_ts_get_set_neq. lia. }
+  assert (Htest : (N.of_nat d <=? wm_tl_nidx lv1) = (d <=? length (tl_idx l1))%nat).
+  { destruct Hrel1 as (V1 & _ & V3 & _). rewrite V1.
+    assert (length (wm_tl_idx lv1) = length (tl_idx l1)) by (rewrite <- (rev_length (wm_tl_idx lv1)), V3, map_length; reflexivity).
+    destruct (N.leb_spec (N.of_nat d) (N.of_nat (length (wm_tl_idx lv1)))); destruct (Nat.leb_spec d (length (tl_idx l1))); try reflexivity; lia. }
+  fold s1. fold lv1. fold s2. rewrite Htest.
+  destruct (d <=? length (tl_idx l1))%nat eqn:Efull.
+  - rewrite Hdlen in Hst' |- *. rewrite <- Hlen1 in Hst' |- *.
+    destruct (ts_commit A SE ts_LEVEL_COUNT d false 1 l1 ups (length cs1) (ts_head_upd (tw_head w) 0 (length cs1))) as [|ok l2 ups2 ch h2] eqn:Ec;
+      [cbn [tw_st] in Hst'; discriminate Hst'|].
+    cbn [tw_st] in Hst'. destruct ok; [|discriminate Hst'].
+    rewrite Hlen1 in Ec.
+    destruct (rt_sim_commit ts_LEVEL_COUNT 1 wfuel false pre cs1 (wm_tx_set_ts y s2) _ _ l1 ups l2 ups2 ch h2 HSy1 Hlvy1 ltac:(lia)
+                ltac:(unfold ts_LEVEL_COUNT; lia) ltac:(rewrite Hlen1; exact Ec)) as (cs3 & HS3 & Hlv3).
+    change (N.of_nat 1) with 1 in HS3, Hlv3.
+    exists ([c] ++ cs3). rewrite app_assoc. fold cs1.
+    split; [cbn [tw_disk tw_head]; exact HS3|]. split; [cbn [tw_lv]; exact Hlv3|reflexivity].
+  - exists [c]. fold cs1. split; [cbn [tw_disk tw_head]; rewrite Hdlen; exact HSy1|]. split; [cbn [tw_lv]; exact Hlvy1|reflexivity].
+Qed.
+
+
+Lemma rt_sim_rec : forall pre cs x w r,
+  rt_W pre cs x w -> tw_st (ts_write A SE key summ d w r) = TsOk ->
+  exists cs', rt_W pre (cs ++ cs') (rt_rec x r) (ts_write A SE key summ d w r).
+Proof.
+  intros pre cs x w r HW Hst.
+  destruct (rt_sim_write wm_level_count pre cs x w r ltac:(change wm_level_count with 16%nat; lia) HW Hst) as (cs' & HW').
+  exists cs'. cbv zeta in HW'. unfold rt_rec, rt_write, wm_ts_add.
+  destruct (wm_raw_wr _ _ (encA r)) as [r1 h1]. destruct (wm_update_item_head r1 _ _) as [r2 dh].
+  destruct (wm_track_update _ sid _ 0 _) as [b1 t1]. exact HW'.
+Qed.
+
+(* status: an error or a fault never goes away *)
+Lemma rt_status_write : forall w r, tw_st (ts_write A SE key summ d w r) = TsOk -> tw_st w = TsOk.
+Proof.
+  intros w r H. unfold ts_write in H. destruct (tw_st w) eqn:E; [reflexivity| |congruence].
+  destruct (match tw_lv w with [] => [ts_level0] | _ => tw_lv w end) as [|l ups]; [cbn [tw_st] in H; discriminate H|].
+  destruct ((d <=? length (tl_idx l))%nat || (d <=? length (tl_sum l))%nat); [cbn [tw_st] in H; discriminate H|].
+  cbn [tl_idx] in H.
+  destruct (d <=? length (tl_idx l ++ [(key r, S (length (tw_disk w)))]))%nat; [|cbn [tw_st] in H; discriminate H].
+  destruct (ts_commit _ _ _ _ _ _ _ _ _ _); [cbn [tw_st] in H; discriminate H|]. cbn [tw_st] in H. destruct ok; discriminate H.
+Qed.
+Lemma rt_status_fold : forall recs w, tw_st (fold_left (ts_write A SE key summ d) recs w) = TsOk -> tw_st w = TsOk.
+Proof.
+  induction recs as [|r recs IH]; intros w H; [exact H|]. cbn [fold_left] in H. apply IH in H. eapply rt_status_write; eauto.
+Qed.
+
+Lemma rt_sim_recs : forall recs pre cs x w,
+  rt_W pre cs x w -> tw_st (fold_left (ts_write A SE key summ d) recs w) = TsOk ->
+  exists cs', rt_W pre (cs ++ cs') (fold_left rt_rec recs x) (fold_left (ts_write A SE key summ d) recs w).
+Proof.
+  induction recs as [|r recs IH]; intros pre cs x w HW Hst.
+  - exists []. rewrite app_nil_r. exact HW.
+  - cbn [fold_left] in *.
+    destruct (rt_sim_rec pre cs x w r HW (rt_status_fold recs _ Hst)) as (cs1 & HW1).
+    destruct (IH pre (cs ++ cs1) _ _ HW1 Hst) as (cs2 & HW2). exists (cs1 ++ cs2). rewrite app_assoc. exact HW2.
+Qed.
+
+(* ---- jls_wr_ts_close ---- *)
+Lemma rt_commit_close_ok : forall f L l ups b h ok l' ups' ch h',
+  ts_commit A SE f d true L l ups b h = TsCRes A SE ok l' ups' ch h' -> ok = true.
+Proof.
+  induction f as [|f IH]; intros L l ups b h ok l' ups' ch h' H; [discriminate H|]. cbn [ts_commit] in H.
+  destruct (tl_idx l) as [|e0 es0]; [injection H as <- _ _ _ _; reflexivity|]. cbn [negb andb] in H.
+  destruct ups as [|u ups2]; [injection H as <- _ _ _ _; reflexivity|].
+  destruct (d <=? length (tl_idx u))%nat; [discriminate H|].
+  destruct (d <=? length (tl_idx u ++ [(fst e0, S b)]))%nat; [|injection H as <- _ _ _ _; reflexivity].
+  destruct (ts_commit A SE f d true (S L) _ ups2 (b + 2) _) as [|ok2 u2 ups3 ch3 h3] eqn:E; [discriminate H|].
+  pose proof (IH _ _ _ _ _ _ _ _ _ _ E) as ->. injection H as <- _ _ _ _. reflexivity.
+Qed.
+
+Lemma rt_commit_none : forall wfuel x level close, wm_ts_get (wm_tx_ts x) level = None -> wm_ts_commit (S wfuel) sid close level x = x.
+Proof. intros wfuel x level close H. cbn [wm_ts_commit]. rewrite H. reflexivity. Qed.
+
+Lemma rt_close_rest : forall wfuel n L x, (forall M, (L <= M < 16)%nat -> wm_ts_get (wm_tx_ts x) (N.of_nat M) = None) -> (L + n = 16)%nat ->
+  fold_left (fun x level => wm_ts_commit (S wfuel) sid true level x) (map N.of_nat (seq L n)) x = x.
+Proof.
+  intros wfuel n. induction n as [|n IH]; intros L x H Hn; [reflexivity|].
+  cbn [seq map fold_left]. rewrite rt_commit_none by (apply H; lia). apply IH; [intros M HM; apply H; lia|lia].
+Qed.
+
+Lemma rt_sim_close_loop : forall wfuel n L lvs pre cs x disk h lvs' ch h', (16 <= S wfuel)%nat ->
+  rt_S pre cs x disk h -> rt_lvls (map rc_off cs) (wm_tx_ts x) L lvs -> (1 <= L)%nat -> (L + n = 16)%nat ->
+  ts_close_loop A SE n d L lvs (length cs) h = Some (lvs', ch, h') ->
+  exists cs', rt_S pre (cs ++ cs') (fold_left (fun x level => wm_ts_commit (S wfuel) sid true level x) (map N.of_nat (seq L n)) x) (disk ++ ch) h'.
+Proof.
+  intros wfuel n. induction n as [|n IH]; intros L lvs pre cs x disk h lvs' ch h' Hwf HS Hlv HL Hn Hc.
+  - cbn [ts_close_loop] in Hc. injection Hc as <- <- <-. exists []. rewrite !app_nil_r. exact HS.
+  - cbn [ts_close_loop] in Hc. destruct lvs as [|l ups].
+    + injection Hc as <- <- <-. exists []. rewrite !app_nil_r. rewrite rt_close_rest; [exact HS|exact Hlv|exact Hn].
+    + destruct (ts_commit A SE ts_LEVEL_COUNT d true L l ups (length cs) h) as [|ok l1 ups1 ch1 h1] eqn:Ec; [discriminate Hc|].
+      pose proof (rt_commit_close_ok _ _ _ _ _ _ _ _ _ _ _ Ec) as ->.
+      destruct (rt_sim_commit ts_LEVEL_COUNT L (S wfuel) true pre cs x disk h l ups l1 ups1 ch1 h1 HS Hlv ltac:(lia) ltac:(unfold ts_LEVEL_COUNT; lia) Ec)
+        as (cs1 & HS1 & Hlv1).
+      cbn [rt_lvls] in Hlv1. destruct Hlv1 as (_ & Hlv1).
+      assert (Hlen1 : length (cs ++ cs1) = (length cs + length ch1)%nat).
+      { destruct HS as ([_ _ _ _ _ _ Td _] & _). destruct HS1 as ([_ _ _ _ _ _ Td1 _] & _).
+        pose proof (rt_Forall2_len _ _ _ _ _ Td). pose proof (rt_Forall2_len _ _ _ _ _ Td1). rewrite !app_length in *. lia. }
+      destruct (ts_close_loop A SE n d (S L) ups1 (length cs + length ch1) h1) as [[[ups2 ch2] h2]|] eqn:Er; [|discriminate Hc].
+      injection Hc as <- <- <-. rewrite <- Hlen1 in Er.
+      destruct (IH (S L) ups1 pre (cs ++ cs1) _ (disk ++ ch1) h1 ups2 ch2 h2 Hwf HS1 Hlv1 ltac:(lia) ltac:(lia) Er) as (cs2 & HS2).
+      exists (cs1 ++ cs2). rewrite !app_assoc. cbn [seq map fold_left]. exact HS2.
+Qed.
+
+(* ---- C: the whole track ---- *)
+Definition rt_fresh (x : wm_tx) : Prop :=
+  rf_bok (wm_tx_base x) /\ rf_tok (wm_b_raw (wm_tx_base x)) (wm_tx_tk x) /\ wm_tk_type (wm_tx_tk x) = ty /\
+  wm_tk_offsets (wm_tx_tk x) = repeat 0 16 /\ wm_tx_ts x = wm_ts_open (N.of_nat d).
+
+Theorem rt_ts_refines : forall recs x0,
+  rt_fresh x0 ->
+  let w := ts_file A SE key summ d recs in
+  tw_st w = TsOk ->
+  let x := wm_ts_close sid (fold_left rt_rec recs x0) in
+  exists cs,
+    filter rt_mine (rt_out x) = rev cs ++ filter rt_mine (rt_out x0) /\
+    Forall2 (rt_chunk_rel (map rc_off cs)) cs (tw_disk w) /\
+    wm_fault (wm_b_raw (wm_tx_base x)) = false /\ rf_bok (wm_tx_base x) /\
+    (forall L, (L < 16)%nat -> wm_get_off (wm_tk_offsets (wm_tx_tk x)) (N.of_nat L) = rt_psi (map rc_off cs) (tw_head w L)).
+Proof.
+  intros recs x0 (Fb & Ft & Fty & Foffs & Fts) w Hst x.
+  assert (HW0 : rt_W (filter rt_mine (rt_out x0)) [] x0 ts_wr0).
+  { split; [|split; [|reflexivity]].
+    - split; [|reflexivity]. constructor; cbn [ts_wr0 tw_disk tw_head map length]; try assumption.
+      + rewrite Fts. cbn. reflexivity.
+      + rewrite Fts. reflexivity.
+      + constructor.
+      + constructor.
+      + intros L HL. rewrite Foffs. split; [|lia]. unfold wm_get_off. rewrite Nat2N.id. cbn [rt_psi].
+        destruct (nth_in_or_default L (repeat 0 16) 0) as [Hin|E0]; [apply repeat_spec in Hin; exact Hin|exact E0].
+    - cbn [ts_wr0 tw_lv rt_lvls map]. intros M HM. rewrite Fts. unfold wm_ts_get, wm_ts_open. cbn [wm_ts_levels]. rewrite Nat2N.id.
+      destruct (nth_in_or_default M (repeat (@None wm_ts_level) wm_level_count) None) as [Hin|E0]; [apply repeat_spec in Hin; exact Hin|exact E0]. }
+  subst w. unfold ts_file, ts_close in Hst |- *.
+  set (w1 := fold_left (ts_write A SE key summ d) recs ts_wr0) in *.
+  assert (Hst1 : tw_st w1 = TsOk).
+  { destruct (tw_st w1) eqn:E; [reflexivity| |congruence].
+    destruct (ts_close_loop A SE (ts_LEVEL_COUNT - 1) d 1 (tw_lv w1) (length (tw_disk w1)) (tw_head w1)) as [[[a b] c]|]; cbn [tw_st] in Hst; discriminate Hst. }
+  destruct (rt_sim_recs recs _ [] x0 ts_wr0 HW0 Hst1) as (cs1 & (HS1 & Hlv1 & _)). cbn [app] in HS1, Hlv1. fold w1 in HS1, Hlv1.
+  rewrite Hst1 in Hst |- *.
+  assert (Hdl : length (tw_disk w1) = length cs1).
+  { destruct HS1 as ([_ _ _ _ _ _ Td _] & _). symmetry. apply (rt_Forall2_len _ _ _ _ _ Td). }
+  rewrite Hdl in Hst |- *.
+  destruct (ts_close_loop A SE (ts_LEVEL_COUNT - 1) d 1 (tw_lv w1) (length cs1) (tw_head w1)) as [[[lvs2 ch2] h2]|] eqn:Ecl; [|cbn [tw_st] in Hst; discriminate Hst].
+  change (ts_LEVEL_COUNT - 1)%nat with 15%nat in Ecl.
+  destruct (rt_sim_close_loop 15 15 1 (tw_lv w1) _ cs1 _ _ _ lvs2 ch2 h2 ltac:(lia) HS1 Hlv1 ltac:(lia) ltac:(lia) Ecl) as (cs2 & HS2).
+  exists (cs1 ++ cs2). cbn [tw_disk tw_head].
+  assert (Ex : x = fold_left (fun x level => wm_ts_commit 16 sid true level x) (map N.of_nat (seq 1 15)) (fold_left rt_rec recs x0)) by reflexivity.
+  rewrite Ex. destruct HS2 as ([Tbok Ttok Tty Tlen Tdec Tnz Tdisk Theads] & Hout).
+  split; [exact Hout|]. split; [exact Tdisk|]. split; [destruct Tbok as (((_ & _ & Hf) & _) & _); exact Hf|]. split; [exact Tbok|].
+  intros L HL. apply Theads. exact HL.
+Qed.
+
+End RT.
+
+(* ------------------------------------------------------------------ the two instances of the API *)
+Definition rt_anno_encS (s : ts_anno_sum) : list N := let '(t, ty, g, y) := s in wm_anno_summary_entry t ty g y.
+Definition rt_utc_encA (p : Z * Z) : list N := wm_utc_payload (fst p) (snd p).
+Definition rt_utc_encS (p : Z * Z) : list N := wm_utc_summary_entry (fst p) (snd p).
+
+Lemma rt_anno_encS_len : forall s, length (rt_anno_encS s) = 16%nat.
+Proof.
+  intros [[[t ty] g] y]. unfold rt_anno_encS, wm_anno_summary_entry. rewrite !app_length, fm_enc_i64_length.
+  unfold fm_enc_u8, fm_enc_u32. rewrite !fm_enc_length. reflexivity.
+Qed.
+Lemma rt_utc_encS_len : forall s, length (rt_utc_encS s) = 16%nat.
+Proof. intros [a b]. unfold rt_utc_encS, wm_utc_summary_entry. rewrite app_length, !fm_enc_i64_length. reflexivity. Qed.
+Lemma rt_utc_encA_len : forall p, rf_len (rt_utc_encA p) = SIZEOF_utc_data.
+Proof.
+  intros [a b]. unfold rf_len, rt_utc_encA, wm_utc_payload. rewrite app_length, rt_payload_header_len, fm_enc_i64_length. reflexivity.
+Qed.
+
+(* jls_wr_annotation, once the arguments are accepted, is rt_rec on the annotation track of the signal *)
+Lemma rt_api_annotation : forall st sig a s ts,
+  wm_signal_validate st sig = (0, Some s) -> (256 <=? an_type a) = false -> (256 <=? an_stype a) = false ->
+  ((1 <=? an_stype a) && (an_stype a <=? 3)) = true -> wm_sg_anno s = Some ts ->
+  let x' := rt_rec anno ts_anno_sum an_ts ts_anno_summ wm_anno_payload rt_anno_encS sig JLS_TRACK_TYPE_ANNOTATION
+                   {| wm_tx_base := wm_st_base st; wm_tx_tk := wm_sg_tk_anno s; wm_tx_ts := ts |} a in
+  wm_api_annotation st sig a = (wm_put_sig st (wm_tx_base x') (wm_sg_set_anno s (wm_tx_tk x') (Some (wm_tx_ts x'))), 0).
+Proof.
+  intros st sig a s ts Hv H1 H2 H3 Ha x'. unfold wm_api_annotation. rewrite Hv, H1, H2, H3, Ha. cbn [negb].
+  subst x'. unfold rt_rec, rt_write, rt_tag. cbn [wm_tx_base wm_tx_tk wm_tx_ts].
+  change (fm_track_tag JLS_TRACK_TYPE_ANNOTATION JLS_TRACK_CHUNK_DATA) with JLS_TAG_TRACK_ANNOTATION_DATA.
+  change (wm_len (wm_anno_payload a)) with (rf_len (wm_anno_payload a)).
+  destruct (wm_raw_wr _ _ (wm_anno_payload a)) as [r1 h1]. destruct (wm_update_item_head r1 _ _) as [r2 dh].
+  destruct (wm_track_update _ sig _ 0 _) as [b1 t1]. reflexivity.
+Qed.
+
+Lemma rt_api_utc : forall st sig sample_id utc s ts,
+  wm_signal_validate_typed st sig JLS_SIGNAL_TYPE_FSR = (0, Some s) -> wm_sg_utc s = Some ts ->
+  let x' := rt_rec (Z * Z) (Z * Z) fst (fun p => p) rt_utc_encA rt_utc_encS sig JLS_TRACK_TYPE_UTC
+                   {| wm_tx_base := wm_st_base st; wm_tx_tk := wm_sg_tk_utc s; wm_tx_ts := ts |} (sample_id, utc) in
+  wm_api_utc st sig sample_id utc = (wm_put_sig st (wm_tx_base x') (wm_sg_set_utc s (wm_tx_tk x') (Some (wm_tx_ts x'))), 0).
+Proof.
+  intros st sig sample_id utc s ts Hv Ha x'. unfold wm_api_utc. rewrite Hv, Ha.
+  subst x'. unfold rt_rec, rt_write, rt_tag. cbn [wm_tx_base wm_tx_tk wm_tx_ts fst snd].
+  change (fm_track_tag JLS_TRACK_TYPE_UTC JLS_TRACK_CHUNK_DATA) with JLS_TAG_TRACK_UTC_DATA.
+  rewrite (rt_utc_encA_len (sample_id, utc)). unfold rt_utc_encA, rt_utc_encS. cbn [fst snd].
+  destruct (wm_raw_wr _ _ (wm_utc_payload sample_id utc)) as [r1 h1]. destruct (wm_update_item_head r1 _ _) as [r2 dh].
+  destruct (wm_track_update _ sig _ 0 _) as [b1 t1]. reflexivity.
+Qed.
